@@ -356,6 +356,7 @@ class Library:
                                'dereferenced"); return (%s)p; }' % (e, n, ct, e))
         f[n + '__op_deref'] = ('static inline %s %s__op_deref(%s p) { __CPROVER_assert(p != 0, "UB: null unique_ptr '
                                'dereferenced"); return (%s)p; }' % (e, n, ct, e))
+        f[n + '__from__nullptr_t'] = 'static inline %s %s__from__nullptr_t(nullptr_t x) { return (%s)0; }' % (ct, n, ct)
         f[n + '__get'] = 'static inline %s %s__get(%s p) { return (%s)p; }' % (e, n, ct, e)
         f[n + '__op_conv_bool'] = 'static inline _Bool %s__op_conv_bool(%s p) { return p != 0; }' % (n, ct)
         f[n + '__op_not'] = 'static inline _Bool %s__op_not(%s p) { return p == 0; }' % (n, ct)
